@@ -4,8 +4,8 @@
    from a detached clone; what every view must show for a given parent state is tabulated from
    detached clones as well.  The check replays the history in the store model and demands that
    every dump equals what the store shows. *)
-From Coq Require Import List Arith Bool.
-From Dimod Require Import Base.Util Model.Store.
+From Coq Require Import List ZArith QArith Qcanon Arith Bool.
+From Dimod Require Import Base.Util Model.Poly Model.Samples Model.SSet Model.Store Model.Heap.
 Import ListNotations.
 
 Definition viewtab := list (nat * nat * nat).     (* (kind, parent state, view state) *)
@@ -29,7 +29,36 @@ Definition to_op (o : obsop) : op nat :=
   | OEdit i ex => Edit i (fun _ => ex)
   end.
 
-Record case := mkCase { vtab : viewtab; hist : list (obsop * list nat) }.
+(* ---- second reading of the same history: the object-level heap of Model/Heap.v ----
+   every step is rendered as a Heap operation with its real parameters (copy-producing calls and
+   in-place calls that Heap.v models as functions) or, for calls Heap.v does not model as a function,
+   with the result / new state obtained from a detached clone (CGiven / IAny); `hstep` is run and every
+   owning handle's observed content is compared with the heap cell it predicts *)
+Definition assoc_fn (m : list (nat * nat)) (v : nat) : nat :=
+  match find (fun p => (fst p =? v)%nat) m with Some p => snd p | None => v end.
+
+Definition cons_eqb (n : nat) (a b : list (nat * poly)) : bool :=
+  list_eqb (fun x y => (fst x =? fst y)%nat && poly_coeff_eqb n (snd x) (snd y)) a b.
+Definition obj_eqb (n : nat) (a b : obj) : bool :=
+  match a, b with
+  | OModel p, OModel q => poly_coeff_eqb n p q
+  | OSet s, OSet t => sset_eqb s t
+  | OCqm o1 c1, OCqm o2 c2 => poly_coeff_eqb n o1 o2 && cons_eqb n c1 c2
+  | OVars l1, OVars l2 => list_eqb Nat.eqb l1 l2
+  | _, _ => false
+  end.
+
+Definition cells_ok (n : nat) (h : heap) (obs : list (nat * obj)) : bool :=
+  forallb (fun io => match nth_error h (fst io) with Some x => obj_eqb n (snd io) x | None => false end) obs.
+
+Fixpoint hreplay (K : lkeys) (n : nat) (h : heap) (l : list (list hop * list (nat * obj))) : bool :=
+  match l with
+  | [] => true
+  | (ops, obs) :: r => let h' := hrun K h ops in cells_ok n h' obs && hreplay K n h' r
+  end.
+
+Record case := mkCase { vtab : viewtab; hist : list (obsop * list nat);
+                        hK : lkeys; hn : nat; hhist : list (list hop * list (nat * obj)) }.
 
 Definition dump_of (t : viewtab) (s : store nat) : list (option nat) :=
   map (read nat (view_lookup t) s) (seq 0 (length s)).
@@ -42,4 +71,4 @@ Fixpoint replay (t : viewtab) (s : store nat) (h : list (obsop * list nat)) : bo
       list_eqb (option_eqb Nat.eqb) (dump_of t s') (map Some d) && replay t s' r
   end.
 
-Definition check (c : case) : bool := replay (vtab c) [] (hist c).
+Definition check (c : case) : bool := replay (vtab c) [] (hist c) && hreplay (hK c) (hn c) [] (hhist c).
